@@ -34,6 +34,7 @@ BUDGET_S = {"quick": 270, "thorough": 1150}
 
 stubs.install_body_io()
 CRLF = b"\r\n"
+TE_SPELLINGS = ["chunked", "Chunked", "CHUNKED", "gzip, chunked", " chunked "]
 
 
 # ---------------------------------------------------------------- encoder (configurations)
@@ -253,9 +254,10 @@ def make_wsgi(shape):
     payload = bytes(range(97, 97 + N))
     enc, core, _ = encode(shape, payload)
 
-    def q(k: int, f1: int):
+    def q(k: int, f1: int, te: int):
         assume(0 <= k <= len(enc))
         assume(1 <= f1 <= 3)
+        assume(0 <= te < len(TE_SPELLINGS))       # transfer-coding names are case-insensitive (RFC 7230 4)
         app = ombott.Ombott()
 
         @app.route("/u", method="POST")
@@ -263,7 +265,7 @@ def make_wsgi(shape):
             return app.request.body.read()
         s = stubs.SymStream(k, [], data=enc)
         errs = stubs.PyBytesIO()
-        env = {"REQUEST_METHOD": "POST", "PATH_INFO": "/u", "wsgi.input": s, "HTTP_TRANSFER_ENCODING": "chunked",
+        env = {"REQUEST_METHOD": "POST", "PATH_INFO": "/u", "wsgi.input": s, "HTTP_TRANSFER_ENCODING": TE_SPELLINGS[te],
                "wsgi.errors": type("E", (), {"write": staticmethod(lambda t: errs.write(t.encode()))}), "SERVER_NAME": "h",
                "SERVER_PORT": "80", "wsgi.url_scheme": "http"}
         got = []
@@ -306,7 +308,7 @@ def queries(tier):
                  "every byte string of length <= %d as a chunked body, buffer 8" % (3 if not T else 4),
                  timeout=200 if not T else 1000, expect_cover=["reject"], family="any"))
     for i, sh in list(enumerate(shapes(tier)))[:2 if not T else 4]:
-        out.append(Q("wsgi/s%d" % i, make_wsgi(sh), "Ombott.__call__: POST handler reading Request.body, stream cut at symbolic k: 400 iff cut inside the encoding",
+        out.append(Q("wsgi/s%d" % i, make_wsgi(sh), "Ombott.__call__: POST handler reading Request.body, stream cut at symbolic k: 400 iff cut inside the encoding; Transfer-Encoding spelled as one of %r" % (TE_SPELLINGS,),
                      timeout=120 if not T else 300, expect_cover=["400", "200"], family="wsgi", config=repr(sh)))
     return out
 
